@@ -33,42 +33,52 @@ Count(s, i)    == Cardinality({k \in DOMAIN s : s[k] = i})
 (*     the back (with or without having traded in this visit);             *)
 (*   - a partially filled order KEEPS ITS PLACE when `requeueTail` is      *)
 (*     FALSE (the property) and goes to the back when TRUE (what the code  *)
-(*     does, deviation D5);                                                *)
+(*     does, deviation D5: every surviving maker is re-queued with push);  *)
 (*   - an order with nothing displayed that cannot replenish is passed     *)
-(*     over and keeps its place; a zero-quantity plain order leaves.       *)
+(*     over and keeps its place (requeueTail: it is set aside and          *)
+(*     re-queued at the tail after the sweep); a zero-quantity plain order *)
+(*     leaves.                                                             *)
 (* Result: the [maker, qty] sequence, the new priority list and orders.    *)
 (***************************************************************************)
-RECURSIVE Sweep(_, _, _, _, _, _)
-Sweep(prio, k, qm, rem, txs, requeueTail) ==
-  IF rem = 0 \/ k > Len(prio) THEN [txs |-> txs, prio |-> prio, qm |-> qm, rem |-> rem]
+RECURSIVE Sweep(_, _, _, _, _, _, _)
+Sweep(prio, k, qm, rem, txs, requeueTail, aside) ==
+  IF rem = 0 \/ k > Len(prio) THEN [txs |-> txs, prio |-> prio \o aside, qm |-> qm, rem |-> rem]
   ELSE LET i   == prio[k]
            res == MatchDoc(qm[i], rem)
            tx2 == IF res.c > 0 THEN Append(txs, [maker |-> i, qty |-> res.c]) ELSE txs
        IN IF ~IsOrder(res.upd)
-          THEN Sweep(RemoveAt(prio, k), k, [qm EXCEPT ![i] = NoOrder], res.rem, tx2, requeueTail)
+          THEN Sweep(RemoveAt(prio, k), k, [qm EXCEPT ![i] = NoOrder], res.rem, tx2, requeueTail, aside)
           ELSE IF res.hr > 0 \/ (requeueTail /\ res.c > 0)
-          THEN Sweep(Append(RemoveAt(prio, k), i), k, [qm EXCEPT ![i] = res.upd], res.rem, tx2, requeueTail)
+          THEN Sweep(Append(RemoveAt(prio, k), i), k, [qm EXCEPT ![i] = res.upd], res.rem, tx2, requeueTail, aside)
           ELSE IF res.c > 0       \* partial fill, rem = 0 now: keeps its place
-          THEN Sweep(prio, k, [qm EXCEPT ![i] = res.upd], res.rem, tx2, requeueTail)
-          ELSE Sweep(prio, k + 1, qm, rem, txs, requeueTail)   \* nothing displayed: passed over
+          THEN Sweep(prio, k, [qm EXCEPT ![i] = res.upd], res.rem, tx2, requeueTail, aside)
+          ELSE IF requeueTail     \* nothing displayed: set aside, re-queued at the tail after the sweep
+          THEN Sweep(RemoveAt(prio, k), k, qm, rem, txs, requeueTail, Append(aside, i))
+          ELSE Sweep(prio, k + 1, qm, rem, txs, requeueTail, aside)   \* passed over, keeps its place
 
-IdealMatch(prio, qm, q, requeueTail) == Sweep(prio, 1, qm, q, <<>>, requeueTail)
+IdealMatch(prio, qm, q, requeueTail) == Sweep(prio, 1, qm, q, <<>>, requeueTail, <<>>)
 
 MakerQty(txs) == [k \in DOMAIN txs |-> [maker |-> txs[k].maker, qty |-> txs[k].qty]]
 
 -----------------------------------------------------------------------------
 (***************************************************************************)
+(* Effective arrival order of a level state: the live ids in the order of  *)
+(* their first ticket.  This is the order in which pop hands them out.     *)
+(***************************************************************************)
+LiveOrder(o) ==
+  LET firsts == {k \in DOMAIN o.tickets : IsOrder(o.qmap[o.tickets[k]]) /\ \A j \in 1..(k-1) : o.tickets[j] # o.tickets[k]}
+      ks == SetToSortSeq(firsts, <)
+  IN [n \in DOMAIN ks |-> o.tickets[ks[n]]]
+
+(***************************************************************************)
 (* Sequential ghost.                                                       *)
-(*  prio     ideal priority list (property C04)                            *)
-(*  prioRT   the same with deviation D5 (tail re-queue) only               *)
 (*  supplied/executed/back/disc   cumulative accounting per id             *)
 (*  issued   set of transaction ids handed out so far                      *)
 (*  gone     ids handed to a caller by a removal and not added since       *)
 (*  nAdd, nRem, qtyX   what the statistics must report                     *)
 (***************************************************************************)
-SeqGhostInit(qm, order) ==
-  [prio |-> order, prioRT |-> order,
-   supplied |-> [i \in Ids |-> IF IsOrder(qm[i]) THEN Total(qm[i]) ELSE 0],
+SeqGhostInit(qm) ==
+  [supplied |-> [i \in Ids |-> IF IsOrder(qm[i]) THEN Total(qm[i]) ELSE 0],
    executed |-> ZeroIds, back |-> ZeroIds, disc |-> ZeroIds,
    issued |-> {}, gone |-> [i \in Ids |-> FALSE], nAdd |-> 0, nRem |-> 0, qtyX |-> 0]
 
@@ -76,23 +86,17 @@ TxQtyOf(txs, i) == SumSeq([k \in DOMAIN txs |-> IF txs[k].maker = i THEN txs[k].
 
 SeqGhostNext(sg, pre, c, r, post) ==
   CASE c.op = "add" /\ r.t = "some" ->
-         [sg EXCEPT !.prio = Append(Without(@, c.o.id), c.o.id), !.prioRT = Append(Without(@, c.o.id), c.o.id),
-                    !.supplied[c.o.id] = @ + Total(c.o), !.gone[c.o.id] = FALSE, !.nAdd = @ + 1]
+         [sg EXCEPT !.supplied[c.o.id] = @ + Total(c.o), !.gone[c.o.id] = FALSE, !.nAdd = @ + 1]
     [] c.op = "add" -> [sg EXCEPT !.nAdd = @ + 1]
     [] c.op = "match" /\ r.t = "match" ->
-         LET im  == IdealMatch(sg.prio, pre.qmap, c.q, FALSE)
-             imr == IdealMatch(sg.prioRT, pre.qmap, c.q, TRUE)
-             left == {i \in Live(pre.qmap) : ~IsOrder(post.qmap[i])}
-         IN [sg EXCEPT !.prio = SelectSeq(im.prio, LAMBDA i : IsOrder(post.qmap[i])),
-                       !.prioRT = SelectSeq(imr.prio, LAMBDA i : IsOrder(post.qmap[i])),
-                       !.executed = [i \in Ids |-> @[i] + TxQtyOf(r.txs, i)],
+         LET left == {i \in Live(pre.qmap) : ~IsOrder(post.qmap[i])}
+         IN [sg EXCEPT !.executed = [i \in Ids |-> @[i] + TxQtyOf(r.txs, i)],
                        !.disc = [i \in Ids |-> IF i \in left
                                                THEN @[i] + Total(pre.qmap[i]) - TxQtyOf(r.txs, i) ELSE @[i]],
                        !.issued = @ \cup {r.txs[k].txid : k \in DOMAIN r.txs},
                        !.qtyX = @ + SumSeq([k \in DOMAIN r.txs |-> r.txs[k].qty])]
     [] Class(c) = "remove" /\ r.t = "some" ->
-         [sg EXCEPT !.prio = Without(@, r.o.id), !.prioRT = Without(@, r.o.id),
-                    !.back[r.o.id] = @ + Total(r.o), !.gone[r.o.id] = TRUE, !.nRem = @ + 1]
+         [sg EXCEPT !.back[r.o.id] = @ + Total(r.o), !.gone[r.o.id] = TRUE, !.nRem = @ + 1]
     [] Class(c) = "amend" /\ r.t = "some" /\ c.id \in Live(pre.qmap) ->
          [sg EXCEPT !.supplied[c.id] = @ + Total(r.o) - Total(pre.qmap[c.id])]
     [] OTHER -> sg
@@ -127,16 +131,44 @@ P_C02(pre, c, r, post, sg, sg2) ==
     /\ \A i \in Ids : sg2.disc[i] >= 0 /\ sg2.executed[i] <= sg2.supplied[i]
 
 \* C04 ------------------------------------------------------------------------
-\* verdict of one match: "ok" | "KF-C04-1" (explained by tail re-queue alone) | "other"
-C04Verdict(pre, c, r, sg) ==
-  LET real == MakerQty(r.txs) IN
-  IF real = IdealMatch(sg.prio, pre.qmap, c.q, FALSE).txs THEN "ok"
-  ELSE IF real = IdealMatch(sg.prioRT, pre.qmap, c.q, TRUE).txs THEN "KF-C04-1"
-  ELSE "other"
+(* Time priority is judged call by call on the EFFECTIVE arrival order LiveOrder:
+   (T1) a match executes against the orders in that order (IdealMatch), and
+   (T2) every call transforms that order as the property says: an add joins at the back
+        (also for an id cancelled earlier), a removal deletes, a same-price amendment and a
+        partial fill keep the place, a replenishment moves to the back.
+   A deviation is a known finding only at the call that introduces it and only if it is
+   exactly one of the two named ones; `faithful` is the model's prediction [ret, sh].    *)
+IdealOrderAfter(pre, c, r, post) ==
+  LET cur == LiveOrder(pre) IN
+  CASE c.op = "add" /\ r.t = "some" -> Append(Without(cur, c.o.id), c.o.id)
+    [] Class(c) = "remove" /\ r.t = "some" -> Without(cur, r.o.id)
+    [] c.op = "match" /\ r.t = "match" ->
+         SelectSeq(IdealMatch(cur, pre.qmap, c.q, FALSE).prio, LAMBDA i : IsOrder(post.qmap[i]))
+    [] OTHER -> cur
+TailOrderAfter(pre, c, r, post) ==       \* the same with deviation D5 (tail re-queue of a partial fill)
+  IF c.op = "match" /\ r.t = "match"
+  THEN SelectSeq(IdealMatch(LiveOrder(pre), pre.qmap, c.q, TRUE).prio, LAMBDA i : IsOrder(post.qmap[i]))
+  ELSE IdealOrderAfter(pre, c, r, post)
 
 \* a live id with more than one ticket: the older one is a stale ticket whose position the
 \* order inherits (deviation D6)
 HasDupTicket(s) == \E i \in Live(s.qmap) : Count(s.tickets, i) >= 2
+\* a ticket of an id that is not resting: a later add of that id inherits its position (D6)
+HasStaleTicket(s) == \E k \in DOMAIN s.tickets : ~IsOrder(s.qmap[s.tickets[k]])
+
+\* set of tags: {} = as the property says; {"KF-..."} = explained known finding; {"unexplained"}
+C04Tags(pre, c, r, post, faithful) ==
+  LET predicted == faithful # NoOrder /\ faithful.ret.t = r.t /\ LiveOrder(faithful.sh) = LiveOrder(post)
+                   /\ (r.t = "match" => MakerQty(faithful.ret.txs) = MakerQty(r.txs))
+      t1 == IF c.op = "match" /\ r.t = "match"
+               /\ MakerQty(r.txs) # IdealMatch(LiveOrder(pre), pre.qmap, c.q, FALSE).txs
+            THEN (IF predicted /\ HasDupTicket(pre) THEN {"KF-C04-2"} ELSE {"unexplained"})
+            ELSE {}
+      t2 == IF LiveOrder(post) = IdealOrderAfter(pre, c, r, post) THEN {}
+            ELSE IF LiveOrder(post) = TailOrderAfter(pre, c, r, post) THEN (IF predicted THEN {"KF-C04-1"} ELSE {"unexplained"})
+            ELSE IF predicted /\ (HasDupTicket(pre) \/ HasStaleTicket(pre) \/ HasDupTicket(post)) THEN {"KF-C04-2"}
+            ELSE {"unexplained"}
+  IN t1 \cup t2
 
 \* C06 ------------------------------------------------------------------------
 P_C06(pre, c, r, post, sg) ==
@@ -174,15 +206,11 @@ P_C15(post, sg2) == /\ post.st.added = sg2.nAdd /\ post.st.removed = sg2.nRem
 
 (* All per-call checks; result = set of names of the properties the call violates, and the
    known-finding tags that explain a C04 deviation.  `faithful` is what the model of the
-   code (tickets and all) predicts for this call from the same pre-state, or NoOrder if no
-   prediction is available. *)
+   code (tickets and all) predicts for this call from the same pre-state: [ret, sh], or
+   NoOrder if no prediction is available. *)
 CallVerdict(pre, c, r, post, sg, faithful) ==
   LET sg2 == SeqGhostNext(sg, pre, c, r, post)
-      v4  == IF c.op = "match" /\ r.t = "match" THEN C04Verdict(pre, c, r, sg) ELSE "ok"
-      kf4 == IF v4 = "ok" THEN {}
-             ELSE IF faithful # NoOrder /\ faithful.t = "match" /\ MakerQty(faithful.txs) = MakerQty(r.txs)
-                  THEN (IF v4 = "KF-C04-1" THEN {"KF-C04-1"} ELSE IF HasDupTicket(pre) THEN {"KF-C04-2"} ELSE {"unexplained"})
-                  ELSE {"unexplained"}
+      kf4 == C04Tags(pre, c, r, post, faithful)
   IN [bad |-> (IF P_C01(pre, c, r, post, sg) THEN {} ELSE {"C01"})
               \cup (IF P_C02(pre, c, r, post, sg, sg2) THEN {} ELSE {"C02"})
               \cup (IF "unexplained" \in kf4 THEN {"C04"} ELSE {})
